@@ -1077,3 +1077,15 @@ func hasRich(g *Grammar) bool {
 	}
 	return false
 }
+
+// translit rewrites the terminal alphabet of a grammar: every occurrence of the byte from
+// in a rune / operator terminal becomes the (multi-byte) string to. With the same
+// replacement applied to the input this is the same grammar over a non-ASCII alphabet.
+func (g *Grammar) translit(from byte, to string) {
+	for i := range g.Nodes {
+		switch n := &g.Nodes[i]; n.Op {
+		case "rune", "urune", "unode", "unode2", "op":
+			n.Arg = strings.Replace(n.Arg, string(from), to, -1)
+		}
+	}
+}
